@@ -13,7 +13,7 @@ Group laws enter only as `L : Btc.Lawful E.o G`; sizes as `B : Bounds E` (`0 < n
 `secp_bounds` discharges for the executable instance.  NOTE: `Lawful (Btc.EC.ops C)` is uninhabited (off-curve pairs
 have no x in range); what C01 proves is `Lawful (opsSub K)` (the same operations on reduced valid pairs of the
 n-torsion).  So the `L`-theorems below are instantiated at `subEnv K D` in the "End to end" section at the bottom,
-and carried to the EXECUTED `ecEnv C D` / `secpEnv mac` there (`…_raw`: under the named cofactor-one hypothesis;
+and carried to the EXECUTED `ecEnv C D` / `secpEnv mac` there (`…_cofactor_one`: under the named cofactor-one hypothesis;
 `deriveB_sub_ok`, `deriveFold_sub_ec`: without it, answers only).  Theorems without `L` (T1/T2 for private keys,
 T2 for the fold, T4, T5, T6, T7) apply to `secpEnv` as they stand.
 
@@ -298,7 +298,7 @@ operations on the underlying pairs, `lift_x` answering inside the `n`-torsion). 
 (T2 `deriveFold_compose` and T5 `crack_recovers_parent` never had a `Lawful` hypothesis: they already apply to
 `secpEnv`; so do the private-key forms `deriveB_private_eq_fold`, `deriveB_fields_private`, `deriveB_compose_private`.)
 `Lawful (EC.ops C)` itself is NOT what C01 proves (it is uninhabited: off-curve pairs); C01 proves
-`Lawful (opsSub K)`.  The theorems named `…_raw` below are about the EXECUTED `ecEnv C D` / `secpEnv mac`, refusals
+`Lawful (opsSub K)`.  The theorems named `…_cofactor_one` below are about the EXECUTED `ecEnv C D` / `secpEnv mac`, refusals
 included, under the explicit hypothesis that `lift_x` of `opsSub K` and of `Btc.EC.ops C` agree (`LiftAgree K`), which
 follows from cofactor one (`hcof : ∀ g, n • g = 0`) and `Δ ≠ 0` (`liftAgree_of_cofactor_one`).  For secp256k1, `Δ ≠ 0` is
 proved, primality of `p`, `n` is proved (Pratt certificates), and `SecpCofactorOne` is the ONE remaining named
@@ -381,7 +381,7 @@ theorem deriveB_sub_ok {p : ℕ} [Fact p.Prime] {C : Curve} (K : CurveOk p C) (D
   Btc.E2E.deriveB_sub_ok K D h
 
 /-- under cofactor one and `Δ ≠ 0`, the BIP fold and `_derive` over `subEnv K D` ARE their runs over `ecEnv C D` -/
-theorem sub_runs_are_ec_runs {p : ℕ} [Fact p.Prime] {C : Curve} (K : CurveOk p C) (D : EnvData) (h34 : p % 4 = 3)
+theorem sub_runs_are_ec_runs_cofactor_one {p : ℕ} [Fact p.Prime] {C : Curve} (K : CurveOk p C) (D : EnvData) (h34 : p % 4 = 3)
     (hcof : ∀ g : Pt p C.toCurveGroup, C.n • g = 0)
     (hΔ : (curveOf p C.toCurveGroup).toAffine.Δ ≠ 0) (x : XKey) (path : List ℕ) (f : Option Bytes) :
     deriveFold (subEnv K D) x path = deriveFold (ecEnv C D) x path ∧
@@ -390,7 +390,7 @@ theorem sub_runs_are_ec_runs {p : ℕ} [Fact p.Prime] {C : Curve} (K : CurveOk p
    deriveB_sub_eq K D (liftAgree_of_cofactor_one K h34 hcof hΔ) x path f⟩
 
 /-- T1 on `Btc.EC.ops C`, any curve of cofactor one: `_derive` = the BIP fold on every field, refusals included -/
-theorem deriveB_eq_fold_raw_ec {p : ℕ} [Fact p.Prime] {C : Curve} (K : CurveOk p C) (D : EnvData) (h34 : p % 4 = 3)
+theorem deriveB_eq_fold_ec_cofactor_one {p : ℕ} [Fact p.Prime] {C : Curve} (K : CurveOk p C) (D : EnvData) (h34 : p % 4 = 3)
     (hcof : ∀ g : Pt p C.toCurveGroup, C.n • g = 0)
     (hΔ : (curveOf p C.toCurveGroup).toAffine.Δ ≠ 0) (B : Bounds (ecEnv C D)) (x : XKey) (path : List ℕ)
     (hk : x.isPrivate = true ∨ ∀ i ∈ path, i < HARDENED) (hd : x.depth + path.length ≤ MAX_DEPTH) :
@@ -398,7 +398,7 @@ theorem deriveB_eq_fold_raw_ec {p : ℕ} [Fact p.Prime] {C : Curve} (K : CurveOk
   deriveB_eq_fold_raw K D (liftAgree_of_cofactor_one K h34 hcof hΔ) h34 B x path hk hd
 
 /-- T3 on `Btc.EC.ops C`, any curve of cofactor one: the FULL equation, refusals included (fold and `_derive`) -/
-theorem neuter_derive_raw_full_ec {p : ℕ} [Fact p.Prime] {C : Curve} (K : CurveOk p C) (D : EnvData) (h34 : p % 4 = 3)
+theorem neuter_derive_ec_cofactor_one {p : ℕ} [Fact p.Prime] {C : Curve} (K : CurveOk p C) (D : EnvData) (h34 : p % 4 = 3)
     (hcof : ∀ g : Pt p C.toCurveGroup, C.n • g = 0)
     (hΔ : (curveOf p C.toCurveGroup).toAffine.Δ ≠ 0) (B : Bounds (ecEnv C D)) (x : XKey) (v : Bytes) (path : List ℕ)
     (hv : ValidPrv (ecEnv C D) x) (hver : D.pubVersion x.version = some v) (hp : ∀ i ∈ path, i < HARDENED) :
@@ -411,40 +411,40 @@ theorem neuter_derive_raw_full_ec {p : ℕ} [Fact p.Prime] {C : Curve} (K : Curv
    neuter_deriveB_raw K D (liftAgree_of_cofactor_one K h34 hcof hΔ) h34 B x v path hv hver hp⟩
 
 /-- T1 on the driver's `secpEnv mac`: the only assumption is cofactor one (`Δ ≠ 0`, primality: proved) -/
-theorem deriveB_eq_fold_secp256k1_raw (hcof : SecpCofactorOne) (mac : Bytes → Bytes → Bytes) (x : XKey) (path : List ℕ)
+theorem deriveB_eq_fold_secp256k1_cofactor_one (hcof : SecpCofactorOne) (mac : Bytes → Bytes → Bytes) (x : XKey) (path : List ℕ)
     (hk : x.isPrivate = true ∨ ∀ i ∈ path, i < HARDENED) (hd : x.depth + path.length ≤ MAX_DEPTH) :
     deriveB (secpEnv mac) x path none = deriveFold (secpEnv mac) x path :=
-  Btc.E2E.deriveB_eq_fold_secp256k1_raw hcof mac x path hk hd
+  Btc.E2E.deriveB_eq_fold_secp256k1_cofactor_one hcof mac x path hk hd
 
 /-- T1 (fields) on `secpEnv mac`: never another index than the one asked -/
-theorem deriveB_fields_secp256k1_raw (hcof : SecpCofactorOne) (mac : Bytes → Bytes → Bytes) (x y : XKey) (path : List ℕ)
+theorem deriveB_fields_secp256k1_cofactor_one (hcof : SecpCofactorOne) (mac : Bytes → Bytes → Bytes) (x y : XKey) (path : List ℕ)
     (hk : x.isPrivate = true ∨ ∀ i ∈ path, i < HARDENED) (h : deriveB (secpEnv mac) x path none = .ok y) :
     y.depth = x.depth + path.length ∧ y.version = x.version ∧ y.isPrivate = x.isPrivate ∧
     ∀ i, path.getLast? = some i → y.index = i :=
-  Btc.E2E.deriveB_fields_secp256k1_raw hcof mac x y path hk h
+  Btc.E2E.deriveB_fields_secp256k1_cofactor_one hcof mac x y path hk h
 
 /-- T2 on `secpEnv mac` in btclib's shape: every split of a path -/
-theorem deriveB_compose_secp256k1_raw (hcof : SecpCofactorOne) (mac : Bytes → Bytes → Bytes) (x y : XKey)
+theorem deriveB_compose_secp256k1_cofactor_one (hcof : SecpCofactorOne) (mac : Bytes → Bytes → Bytes) (x y : XKey)
     (q r : List ℕ) (hk : x.isPrivate = true ∨ ∀ i ∈ q ++ r, i < HARDENED)
     (hd : x.depth + (q ++ r).length ≤ MAX_DEPTH) (h : deriveB (secpEnv mac) x q none = .ok y) :
     deriveB (secpEnv mac) y r none = deriveB (secpEnv mac) x (q ++ r) none :=
-  Btc.E2E.deriveB_compose_secp256k1_raw hcof mac x y q r hk hd h
+  Btc.E2E.deriveB_compose_secp256k1_cofactor_one hcof mac x y q r hk hd h
 
 /-- T3 on `secpEnv mac`, the full equation for the BIP fold: refused at the same index on both sides -/
-theorem neuter_derive_secp256k1_raw (hcof : SecpCofactorOne) (mac : Bytes → Bytes → Bytes) (x : XKey) (v : Bytes)
+theorem neuter_derive_secp256k1_cofactor_one (hcof : SecpCofactorOne) (mac : Bytes → Bytes → Bytes) (x : XKey) (v : Bytes)
     (path : List ℕ) (hv : ValidPrv (secpEnv mac) x) (hver : Gen.Bip32.pubVersion x.version = some v)
     (hp : ∀ i ∈ path, i < HARDENED) :
     ((deriveFold (secpEnv mac) x path).mapError Err.toPub).bind (neuter (secpEnv mac)) =
       (neuter (secpEnv mac) x).bind fun x' => deriveFold (secpEnv mac) x' path :=
-  Btc.E2E.neuter_derive_secp256k1_raw hcof mac x v path hv hver hp
+  Btc.E2E.neuter_derive_secp256k1_cofactor_one hcof mac x v path hv hver hp
 
 /-- T3 on `secpEnv mac` in btclib's shape (`_derive`, `_xpub_from_xprv`) -/
-theorem neuter_deriveB_secp256k1_raw (hcof : SecpCofactorOne) (mac : Bytes → Bytes → Bytes) (x : XKey) (v : Bytes)
+theorem neuter_deriveB_secp256k1_cofactor_one (hcof : SecpCofactorOne) (mac : Bytes → Bytes → Bytes) (x : XKey) (v : Bytes)
     (path : List ℕ) (hv : ValidPrv (secpEnv mac) x) (hver : Gen.Bip32.pubVersion x.version = some v)
     (hp : ∀ i ∈ path, i < HARDENED) (hd : x.depth + path.length ≤ MAX_DEPTH) :
     ((deriveB (secpEnv mac) x path none).mapError Err.toPub).bind (neuter (secpEnv mac)) =
       (neuter (secpEnv mac) x).bind fun x' => deriveB (secpEnv mac) x' path none :=
-  Btc.E2E.neuter_deriveB_secp256k1_raw hcof mac x v path hv hver hp hd
+  Btc.E2E.neuter_deriveB_secp256k1_cofactor_one hcof mac x v path hv hver hp hd
 
 /-- no assumption at all, secp256k1: `_derive`'s answers over `secpSubEnv` are its answers on `secpEnv`; with
     `deriveB_eq_fold_secp256k1` this ties btclib's shape to the fold in the success case -/
